@@ -76,6 +76,18 @@ theorem verify_accepts_index_output (H : HashFn) (o : ReadOpts) (codec : Nat) (r
     verifyCar H o (layoutV2 0 0 (payload (some roots) bs) true false ix.bytes) = .ok () :=
   verify_accepts_indexed H o codec roots bs ix hne hin ok h10 lok hix hrec
 
+/-- (4') the same for every padded layout and either characteristics flag, with any record list that
+    covers the blocks (what `filter`, `get-dag --version 2` and `create` leave: C05 layouts). -/
+theorem verify_accepts_padded_output (H : HashFn) (o : ReadOpts) (dp ip : Nat) (fi : Bool) (codec : Nat) (roots : List Cid)
+    (bs : List Block) (rs : List Record) (ix : Index)
+    (hne : roots.isEmpty = false) (hin : (roots.all fun r => bs.any fun b => b.cid == r) = true)
+    (ok : PayloadOK H o (some roots) bs) (h10 : 10 ≤ o.maxHeader)
+    (lok : LayoutOK dp ip (payload (some roots) bs).length)
+    (hix : Index.load codec rs = some ix) (hrec : RecordsOK rs)
+    (hmem : ∀ b ∈ bs, ∃ off, (⟨b.cid, off⟩ : Record) ∈ rs) :
+    verifyCar H o (layoutV2 dp ip (payload (some roots) bs) true fi ix.bytes) = .ok () :=
+  verify_accepts_layout H o dp ip fi codec roots bs rs ix hne hin ok h10 lok hix hrec hmem
+
 /-- (5) **`car inspect --full` accepts what `car index` emits**, for every valid payload and either
     codec, and reports the payload's own statistics plus the codec: the layout of (1) is a laid-out
     CARv2 (C13 `inspect_valid_v2`), and a serialized index starts with its codec varint. -/
